@@ -236,6 +236,9 @@ SCOPE_SCENARIOS = [
     ("closure-parameter-gone-after-the-closure", "pub fn sc@K@(app: AppHandle, y: @T@) {\n    let consume = |y: ScB| drop(y);\n    consume(make(0));\n    app.emit(\"sc@K@\", y).unwrap();\n}\n", "T"),
     ("while-let-binding-gone-after-the-loop", "pub fn sc@K@(app: AppHandle, y: @T@) {\n    while let Some(y) = next_piece() {\n        drop(y);\n    }\n    app.emit(\"sc@K@\", &y).unwrap();\n}\n", "T"),
     ("match-guard-sees-the-arm-binding-only", "pub fn sc@K@(app: AppHandle, y: @T@) {\n    match lookup(&y) {\n        Some(y) if check(&y) => {}\n        _ => {\n            app.emit(\"sc@K@\", y).unwrap();\n        }\n    }\n}\n", "T"),
+    ("annotated-let-without-initialiser", "pub fn sc@K@(app: AppHandle, c: bool) {\n    let y: @T@;\n    if c {\n        y = make(1);\n    } else {\n        y = make(2);\n    }\n    app.emit(\"sc@K@\", y).unwrap();\n}\n", "T"),
+    ("annotated-let-without-initialiser-shadows-parameter", "pub fn sc@K@(app: AppHandle, y: ScA) {\n    let _ = &y;\n    let y: @T@;\n    y = make(0);\n    app.emit(\"sc@K@\", &y).unwrap();\n}\n", "T"),
+    ("untyped-let-without-initialiser-shadows-parameter", "pub fn sc@K@(app: AppHandle, y: @T@) {\n    let _ = &y;\n    let y;\n    y = compute();\n    app.emit(\"sc@K@\", y).unwrap();\n}\n", "?"),
     ("let-after-the-emit-does-not-reach-back", "pub fn sc@K@(app: AppHandle, y: @T@) {\n    app.emit(\"sc@K@\", &y).unwrap();\n    let y = ScB { b: String::new() };\n    let _ = y;\n}\n", "T"),
     ("same-name-in-another-function", "pub fn sc@K@_first(_app: AppHandle, y: ScA) {\n    let _ = y;\n}\n\npub fn sc@K@(app: AppHandle, y: @T@) {\n    app.emit(\"sc@K@\", y).unwrap();\n}\n", "T"),
 ]
